@@ -44,6 +44,10 @@ SCHED_TEXT = {
 CHECKS['C17'] = ('other', 'Calendar expression trees (depth <= 2/3) over + - * / | with symbolic capacities, validity bounds and query instant are evaluated by the real classes and compared with a reference evaluator written from the statement (one solver query per path); constructor validation decided for symbolic weekday/units/start/end; availability search with symbolic start time and horizon compared with the least-k reference, both directions.', '6 C17',
                  'Bounded: tree depth, capacity range, query-day menu, horizon <= 10 (see evidence.coverage.bounds). datetime in pjplan.calendar/resource rebound to the symx model. Trusted: CPython, z3 (non-linear real arithmetic for products of two symbolic capacities), symx, the reference evaluator.')
 
+CHECKS['C12'] = ('other', 'critical_path() executed symbolically over every hierarchy/link placement (links on leaves and summaries, optional outside predecessor) with real-valued symbolic estimates/spent (or missing); membership of every leaf compared with a reference longest-path model over the effective leaf-level DAG (solver query per leaf): zero float => returned, float above 1e-6 => not returned; result subset of WBS leaves, non-empty, WBS unchanged, no exception. A binary64 (QF_FP) search harness covers the rounding clause as counterexample search.', '6 C12',
+                 'Bounded: <=4 tasks quick / 5 thorough; quantities real in [0,12] (LRA). Exact rational arithmetic stands for binary64 except in the FP harness. Trusted: CPython, z3, symx, the 40-line reference model.')
+CHECKS['C10'] = ('model_checking', 'Every invariant state with one source WBS and outside tasks linked to members (ids symbolic, so an outside id may equal a member id) x clone() / subtree(selection): structural comparison of the copy, source snapshot unchanged, then one arbitrary mutation on source or copy must leave the other side unchanged.', '6 C10', GRAPH_NOTE)
+
 NOT_YET = {
 }
 
